@@ -2,7 +2,7 @@
 
 Case line (kind `a10`), fields separated by `|`:
 
-  a10 | n=<N> [W=1] [B=b|l] | F=<k:spec,…> [K=<j:code,…>] | C=<class>;<class>;… | H=<beh,…> | op;op;…
+  a10 | n=<N> [W=1] [P=<i.j>] [B=b|l] | F=<k:spec,…> [K=<j:code,…>] | C=<class>;<class>;… | H=<beh,…> | op;op;…
 
   B        the owner classes are alive but FALSY: B=b they define `__bool__` returning False, B=l `__len__`
            returning 0 (an empty container-like model).  Nothing in the statement depends on the owner's truth value;
@@ -19,12 +19,15 @@ Case line (kind `a10`), fields separated by `|`:
            object); used as `_name_default` of List / Dict / Set traits, whose validation builds the instance's own
            TraitListObject / TraitDictObject / TraitSetObject.
            W=1: the run turns UserWarning into an error (the `_warn_on_attribute_error` path)
+  P        the `post_setattr` hook of `pa<k>` members raises RuntimeError at these call ordinals (number of earlier
+           post_setattr calls of the case): a first read during which post_setattr fails AFTER the default was
+           computed and stored
   K        reusable trait definitions: ONE CTrait object (`Any(...).as_ctrait()`, like a module-level `Trait(0.0)`)
            that the case binds to several names, in several classes, and/or adds to several instances;
            code c<v> or fa<k>; referred to as member k<j>
   class    <base index or ->:<name>=<member>[~k][/hK],…  with member
            c<v> Any(atom) · al<a.b> Any([a,b]) · ad<a.b> Any({..}) · L/D/S<a.b> List/Dict/Set(Int) with default ·
-           fa<k> Any(factory=F[k]) · T<k> Tuple(List(Int), Int) · U<k> Union(List(Int), None) · o self() ·
+           fa<k> Any(factory=F[k]) · pa<k> the same with a post_setattr hook (see P) · T<k> Tuple(List(Int), Int) · U<k> Union(List(Int), None) · o self() ·
            n<form><cls><a.b> a trait whose default KIND is inferred from the default VALUE, an instance of a list /
            dict (sub)class: form t = user-defined TraitType with `default_value`, r = Trait(default, list|dict),
            e = Either(Dict(Int, Int) | List(Int), Str, default=…); cls l list · h user list subclass · m dict ·
@@ -152,14 +155,15 @@ def falsy_switch(text):
     return ["", "b", "l"][zlib.crc32(text.encode()) % 3]
 
 
-def mk_case(F, classes, H, ops, W=0, K=(), impl_only=False, B=None):
+def mk_case(F, classes, H, ops, W=0, K=(), impl_only=False, B=None, P=None):
     rest = "F=%s%s|C=%s|H=%s|%s" % (
         ",".join("%d:%s" % (i, s) for i, s in enumerate(F)) or "-",
         (" K=" + ",".join("%d:%s" % (i, s) for i, s in enumerate(K))) if K else "",
         ";".join(classes), ",".join(H) or "o", ";".join(ops))
     if B is None:
         B = falsy_switch(rest)
-    return "%sa10|n=%d%s%s|%s" % ("#" if impl_only else "", NATOMS, " W=1" if W else "", (" B=" + B) if B else "", rest)
+    return "%sa10|n=%d%s%s%s|%s" % ("#" if impl_only else "", NATOMS, " W=1" if W else "",
+                                    (" P=" + ".".join(str(x) for x in P)) if P else "", (" B=" + B) if B else "", rest)
 
 
 def corpus():
@@ -173,6 +177,11 @@ def corpus():
                 for (f, c, f2, c2, B) in (("t", "o", "r", "d", ""), ("r", "c", "e", "o", "b"), ("r", "h", "t", "u", "l"),
                                           ("e", "h", "r", "h", ""))]
     return tmpl + inferred + [
+        # post_setattr raises during the first read (after the default was computed and stored): the default stays,
+        # the next read returns it, the factory ran once
+        mk_case(["f4.5"], ["-:0=pa0,1=c3"], ["o", "o"],
+                ["new 0", "new 0", "ro 0 0 1", "get 0 0", "get 0 0", "mut 0 0 9", "get 1 0", "get 0 0"], P=[0]),
+        mk_case(["e6"], ["-:0=pa0"], ["o"], ["new 0", "new 0", "get 0 0", "get 1 0", "get 1 0", "get 0 0"], P=[1]),
         # one reusable CTrait object bound to two names and used by classes defined before and after; x0 has a
         # _name_default and no static handler: the siblings keep the declared default
         mk_case(["e6"], ["-:0=k0,1=k0", "-:0=k0~0,1=k0", "-:0=k0,1=k0"], ["o"],
@@ -567,6 +576,23 @@ def exhaustive():
                 yield mk_case(F, classes, ["o", "o"], ops, W=1)
 
 
+def post_case(rng):
+    """First reads during which `post_setattr` raises after the default was computed and stored: the failed read
+    leaves the default in place, later reads return that same object, the factory runs once per instance and name;
+    other instances get their own."""
+    F = [rng.choice(["f4.5", "f3", "e6", "t4"])]
+    P = sorted(rng.sample(range(0, 3), rng.randint(1, 2)))
+    ops = ["new 0", "new 0"]
+    if rng.random() < 0.5:
+        ops.append(rng.choice(["rd 0 0 0", "ro 0 0 1", "ra 0 1"]))
+    body = ["get 0 0", "get 0 0", "get 1 0", "get 1 0", "get 0 0"]
+    if rng.random() < 0.5:
+        body.insert(rng.randint(2, 4), "mut 0 0 9")
+    if rng.random() < 0.3:
+        body += ["new 0", "get 2 0", "get 2 0"]
+    return mk_case(F, ["-:0=pa0,1=c3"], ["o", "o"], ops + body, P=P)
+
+
 def generate(rng, tier):
     yield from exhaustive()
     n = {"quick": 3000, "thorough": 100000}.get(tier, 30000)
@@ -590,6 +616,8 @@ def generate(rng, tier):
         yield scenario_case(rng, "A")
     for _ in range(max(60, n // 15)):
         yield scenario_case(rng, "B")
+    for _ in range(max(40, n // 60)):
+        yield post_case(rng)
 
 
 # ---------------------------------------------------------------------------
@@ -609,6 +637,10 @@ class Run:
         hdr = A.kv(f[1])
         self.N = int(hdr["n"])
         self.W = hdr.get("W") == "1"
+        self.P = [int(x) for x in hdr.get("P", "").split(".") if x != ""]
+        self.npost = 0            # post_setattr calls so far
+        self.post_raised = []     # call ordinals at which the hook raised
+        self.post_failed = set()  # (instance, name): a read during which only post_setattr failed
         self.falsy = hdr.get("B", "")
         self.templates = {}       # factory index -> the one object an `s…` factory hands out
         self.fraised = []         # (global ordinal, exception class name) of factory calls that raised
@@ -735,6 +767,17 @@ class Run:
             return Any({100 + i: v for i, v in enumerate(xs(code[2:]))})
         if code.startswith("fa"):
             return Any(factory=self.factory(int(code[2:])))
+        if code.startswith("pa"):
+            run = self
+
+            class PostAny(Any):
+                def post_setattr(self, object, name, value):
+                    n = run.npost
+                    run.npost += 1
+                    if n in run.P:
+                        run.post_raised.append(n)
+                        raise RuntimeError("post_setattr raises at call %d" % n)
+            return PostAny(factory=self.factory(int(code[2:])))
         if code.startswith("vl"):
             return xs(code[2:])
         if code.startswith("vd"):
@@ -899,6 +942,7 @@ class Run:
                 if skip is not None and k != "new" and int(op[1]) == skip:
                     continue
                 log0, f0, r0 = len(self.log), len(self.fcalls), len(self.fraised)
+                p0 = len(self.post_raised)
                 exc, val, read, read_struct = None, A, A, None
                 self.cur = None
                 try:
@@ -983,6 +1027,9 @@ class Run:
                                 raise AssertionError(op)
                 except Exception as e:
                     exc = e
+                if (self.cur is not None and self.fcalls[f0:] and not self.fraised[r0:] and exc is not None
+                        and self.post_raised[p0:]):
+                    self.post_failed.add(self.cur)          # the default was computed; only post_setattr failed
                 if self.cur is not None and self.fcalls[f0:] and ("x%d" % self.cur[1]) not in self.objs[self.cur[0]][0].__dict__:
                     self.failed_defaults.add(self.cur)      # the factory ran but no default was established
                 if k == "get":
@@ -1085,7 +1132,7 @@ def member_structure(run, code, inst):
         return _seq("seq", xs(code[2:]))
     if code.startswith("ad") or code.startswith("vd"):
         return _seq("dict", xs(code[2:]))
-    if code.startswith("fa"):
+    if code.startswith("fa") or code.startswith("pa"):
         return spec_structure(run.F[int(code[2:])])
     if code[0] in "cv":
         return "p" + code[1:]
@@ -1151,7 +1198,7 @@ def kind_of(run, ci, name):
             return "inferred-%s-%s" % ({"t": "TraitType", "r": "Trait()", "e": "Either"}[code0[1]],
                                        {"l": "list", "h": "list-subclass", "m": "dict", "o": "OrderedDict",
                                         "d": "defaultdict", "c": "Counter", "u": "dict-subclass"}[code0[2]])
-        for p, l in (("al", "list-of-Any"), ("ad", "dict-of-Any"), ("fa", "factory"), ("vl", "list"), ("vd", "dict")):
+        for p, l in (("al", "list-of-Any"), ("ad", "dict-of-Any"), ("fa", "factory"), ("pa", "factory"), ("vl", "list"), ("vd", "dict")):
             if code0.startswith(p):
                 return l
         return {"c": "constant", "L": "List", "D": "Dict", "S": "Set", "T": "Tuple", "U": "Union", "o": "Self",
@@ -1506,6 +1553,17 @@ def run_impl(case):
             continue
         count[(i, n, ep)] = count.get((i, n, ep), 0) + 1
     for (i, n, ep), c in count.items():
+        if (i, n) in real.post_failed:
+            # the default computation itself succeeded and only post_setattr failed during that read: the default
+            # was computed (and stored) then; a later read must return it, not compute another one
+            tags.add("first-read-post-setattr-raises")
+            if c > 1:
+                ci = real.objs[i][1]
+                hits.append(_hit("default-recomputed-after-failed-first-read:" + kind_of(real, ci, "x%d" % n),
+                                 "default factory ran %d times for instance %d attribute x%d: the first read failed "
+                                 "in post_setattr AFTER the default had been computed, and a later read computed "
+                                 "another one" % (c, i, n)))
+            continue
         if (i, n) in real.failed_defaults:
             tags.add("failing-default")
             continue
@@ -1653,7 +1711,8 @@ def run_impl(case):
                                          idx, prev[1], nm)), no_shrink=False))
                 owner.setdefault(id(c), (idx, nm))
     # ---- non-interference: twin run without the acting instance's operations
-    if any(sp[0] == "y" for sp in real.F):
+    if any(sp[0] == "y" for sp in real.F) or real.P:
+        # (likewise a post_setattr hook that raises at given call ordinals of the case)
         # a factory whose outcome depends on how often factories were called before is shared state of the user's
         # own making: the twin run (fewer calls) legitimately sees other outcomes
         tags.add("twin-skipped:stateful-factory")
